@@ -87,7 +87,13 @@ def queries(tier):
     qs.append(q("same.T5", "T5", [{"variants": A}, {"variants": A, "leaves_from": 0, "expect": NONE}]))
     qs.append(q("same.T6", "T6", [{}, {"leaves_from": 0, "restart": True, "expect": NONE}], timeout=500))
     qs.append(q("same.T7", "T7", [{"variants": A}, {"variants": A, "leaves_from": 0, "expect": NONE}]))
-    qs.append(q("same.T3.eval", "T3", [{"variants": A, "style": "eval"}, {"variants": A, "leaves_from": 0, "style": "eval", "expect": NONE}], nargs=True, timeout=500, fixed={"G": [0, 0]}))
+    qs.append(q("same.T3.eval", "T3", [{"variants": A, "style": "eval"}, {"variants": A, "leaves_from": 0, "style": "eval", "expect": NONE}], nargs=True, timeout=500, fixed={"n": [1, 1]}))
+    qs.append(q("same.T4.eval", "T4", [{"variants": A, "style": "eval"}, {"variants": A, "leaves_from": 0, "style": "eval", "restart": True, "expect": NONE}], nargs=True, timeout=500, fixed={"G": [0, 0]}))
+    # a kept function with a falsy default, reached through dds.eval of its parent and then kept directly (and the other way round)
+    Z1 = {"style": "eval", "entry": ["tq.m1", "root0"]}
+    Z2 = {"style": "keep", "entry": ["tq.m1", "g0"], "path": "/t3/z"}
+    qs.append(q("same.T3.falsy-default.eval-keep", "T3", [dict(Z1), dict(Z2, leaves_from=0, expect={"exec_none": True, "same_sig": [0, ["/t3/z"]]})]))
+    qs.append(q("same.T3.falsy-default.keep-eval", "T3", [dict(Z2), dict(Z1, leaves_from=0, expect={"exec_none": True, "same_sig": [0, ["/t3/z"]]})]))
     # copy of the code in another accepted module: same values of RATE in both modules
     qs.append({"id": "same.T8.copy", "fn": "hist", "sel": {"template": "T8", "steps": [{"entry": ["tq.m1", "scaled"]}, {"entry": ["tq.m3", "scaled"], "leaves_from": 0, "expect": NONE}], "leaf_type": {}, "nargs": False, "store": "memory", "fixed": {}, "tie": [["tq.m1", "tq.m3", "RATE"]]}, "timeout": 300})
     # (s, s', s)
